@@ -34,6 +34,7 @@ ASSUMPTIONS = [
 ]
 FLOORS = {"quick": {"programs": 40, "comparisons": 2000, "bundled_fields": 200},
           "thorough": {"programs": 400, "comparisons": 30000, "bundled_fields": 200}}
+PLUGIN_ANCHORS = ['generate_code', 'read_protobuf_type', 'FieldCompiler.get_field_string', 'MapEntryCompiler.__post_init__', 'OneOfFieldCompiler.betterproto_field_args', 'EnumDefinitionCompiler.__post_init__', 'is_map', 'is_oneof', 'outputfile_compiler', 'get_comment']
 CONTRACTS = []
 
 PY_OF = {"double": float, "float": float, "bool": bool, "string": str, "bytes": bytes}
@@ -253,6 +254,7 @@ def run_program(protos, name, res: Result, w):
             res.extra.setdefault("discard_examples", []).append(f"{name}: {e.detail[-200:]}")
             return
         b.load_descriptors()
+        res.extra["plugin_reach"] = sorted(set(res.extra.get("plugin_reach", [])) | set(b.plugin_reach()))[:400]
         try:
             b.import_all()
         except BuildError as e:
